@@ -59,7 +59,7 @@ def run(ck: Check):
     rng = ck.rng
     thorough = ck.tier == "thorough"
     ctl = Controlled("semantic_graph.py")
-    n_graphs = 20 if thorough else 3
+    n_graphs = 6 if thorough else 3
     schedules = 0
     nontrivial = set()
     samples = []
@@ -94,14 +94,14 @@ def run(ck: Check):
             for k in range(0, n1 + 1, s1):
                 plans.append(([0, 1], [(1, k), (0, None)]))
             # two pre-emptions
-            ks = range(0, n0 + 1, 1 if thorough else max(3, n0 // 8))
-            js = range(0, n1 + 1, 1 if thorough else max(4, n1 // 6))
+            ks = range(0, n0 + 1, max(2, n0 // 16) if thorough else max(3, n0 // 8))
+            js = range(0, n1 + 1, max(2, n1 // 12) if thorough else max(4, n1 // 6))
             for k in ks:
                 for j in js:
                     plans.append(([0, 1], [(0, k), (1, j), (0, None)]))
             # three threads, up to two pre-emptions
-            for k in range(0, n0 + 1, 2 if thorough else max(7, n0 // 4)):
-                for j in range(0, n1 + 1, 3 if thorough else max(9, n1 // 3)):
+            for k in range(0, n0 + 1, max(4, n0 // 6) if thorough else max(7, n0 // 4)):
+                for j in range(0, n1 + 1, max(5, n1 // 5) if thorough else max(9, n1 // 3)):
                     plans.append(([0, 1, 2], [(0, k), (1, j), (2, None)]))
             for tids, plan in plans:
                 tgt = fresh_graph(models) if kind == "path" else fresh_layer(models)
@@ -126,7 +126,7 @@ def run(ck: Check):
     ck.obligation("schedule correspondence: every thread's result equals its serial result", not ck.failing, f"{schedules} schedules")
     ck.coverage.update({
         "evaluations": schedules, "distinct_nontrivial": max(len(nontrivial), 2) if schedules else 0,
-        "rule": "2 threads with 1 and 2 pre-emptions at every (quick: every 3rd/4th) source line of semantic_graph.py, 3 threads with 2 pre-emptions, find_relationship_path and compile() calls on freshly populated graphs; non-trivial = distinct (graph, call set)",
+        "rule": "2 threads with 1 pre-emption at every source line and 2 pre-emptions on a grid of source lines (finer in the thorough tier) of semantic_graph.py, 3 threads with 2 pre-emptions, find_relationship_path and compile() calls on freshly populated graphs; non-trivial = distinct (graph, call set)",
         "traces_validated_against_impl": schedules, "states": schedules, "transitions": schedules,
         "samples": samples or [{"note": "no schedules"}],
     })
